@@ -62,6 +62,16 @@ claimed = {
    text="Decides structural necessary conditions, not the behaviour: the compact date form is reached only with a sub-second part proven {0} and a seconds value proven to fit 32 bits; the 8-octet form carries UnixMilli; encoder getter and decoder constructor agree on the unit per form; no arithmetic on the wire value can overflow on [year 1, year 9999]; UnixNano is not used; zero time ↔ null; time.Time is recognised before class-definition emission and by the struct-field dispatcher. Calendar arithmetic of package time is trusted.",
    design_ref="DESIGN.md §3 C10",
    note="Trusts time.UnixMilli/Unix/Nanosecond contracts."),
+ "C04": dict(
+   technique="path and dominance rules over go/ssa: first emission after the encoder's ref registration vs the set of productions whose decoder reader registers (computed by a fixpoint over the decoder), registrar insertion paths, registration-before-recursion dominance",
+   text="Decides the numbering discipline reference identity depends on (necessary conditions, not identity in decoded graphs): after every encoder-side registration the first emission is a production the decoder also numbers; a registrar miss always inserts with ordinal len(table); every container reader registers once, outside loops, before any call that can recurse into the value dispatch; encoder registration dominates the recursive element writes; slices grown by reflect.Append are re-announced to their holder.",
+   design_ref="DESIGN.md §3 C04, Appendix A.5",
+   note="Registrars are discovered structurally (the function updating the Encoder's non-string-keyed map field / appending to the Decoder's []reflect.Value field)."),
+ "C05": dict(
+   technique="path enumeration over the field loop of readObject, value-flow of the destination field index, dispatch maps for x60-x6f/'O' in three dispatchers, interval check of the compact instance header, two-sided index-guard rule (go/ssa)",
+   text="Decides structural necessary conditions, not field values over permutations: every iteration path of the definition-driven field loop consumes exactly one wire value; the destination index is findField(wire name of this iteration) and the helper compares name and capitalised name; x60..x6f and 'O' reach the object readers in ReadData, readStruct and readObjectDef; the compact instance header is emitted only with the untruncated index proven in [0,15]; both object readers guard the class index on both sides; the instance is reflect.New(mapped type).",
+   design_ref="DESIGN.md §3 C05",
+   note="A value-consuming call is a call to a package function from which readTag/getTag is reachable."),
 }
 
 checks = []
